@@ -72,7 +72,7 @@ func jsonEq(a, b interface{}) bool {
 func driveC12(o opts) error {
 	quietStderr()
 	g := gen.New(o.seed)
-	wg := &wgen{g: g}
+	wg := &wgen{g: g, bigBounds: true}
 	syms := newWireSyms()
 	w := emit.New("C12", o.out)
 	w.ShardSize = 400
